@@ -5,5 +5,6 @@ CONSTANTS
   Esc = "escape"
   Header = "first"
   Merge = "grid"
+  Sep = "each"
 POSTCONDITION TraceAccepted
 CHECK_DEADLOCK FALSE
